@@ -14,7 +14,8 @@ from common import Ctx, InfraError  # noqa: E402
 from oracle import noise as O  # noqa: E402
 from translate import c17gen  # noqa: E402
 
-LEAN_TARGETS = ["QuriVerif.Props.C17", "QuriVerif.Generated.C17Obl", "QuriVerif.Driver.C17"]
+LIFT = "QuriVerif.Props.C17Lift"
+LEAN_TARGETS = ["QuriVerif.Props.C17", "QuriVerif.Props.C17Lift", "QuriVerif.Generated.C17Obl", "QuriVerif.Driver.C17"]
 LEAN_TARGETS_THOROUGH = ["QuriVerif.Props.C17Deep"]
 ENTRY = "DriverC17.lean"
 PROPS = "QuriVerif.Props.C17"
@@ -1469,12 +1470,13 @@ def run(ctx: Ctx, replay=None) -> int:
         replay_file(replay)
     info = gen(ctx)
     targets = list(LEAN_TARGETS) + ([] if ctx.quick() else LEAN_TARGETS_THOROUGH)
-    obl_mods = [PROPS, OBL] + ([] if ctx.quick() else [DEEP])
+    obl_mods = [PROPS, OBL, LIFT] + ([] if ctx.quick() else [DEEP])
     ok = ctx.prove(targets, obl_mods)
     if ok:
         names = [f"QV.Props.C17.{n}" for _, n, _ in ctx.count_obligations([PROPS])]
         names += [f"QV.Gen.C17.{n}" for _, n, _ in ctx.count_obligations([OBL])]
-        imports = [PROPS, OBL]
+        names += [f"QV.Props.C17Lift.{n}" for _, n, _ in ctx.count_obligations([LIFT])]
+        imports = [PROPS, OBL, LIFT]
         if not ctx.quick():
             names += [f"QV.Props.C17Deep.{n}" for _, n, _ in ctx.count_obligations([DEEP])]
             imports.append(DEEP)
